@@ -6,6 +6,7 @@
 -/
 import Ctrmml.Proofs.MdSched
 import Ctrmml.Proofs.MdSlur
+import Ctrmml.Proofs.TickTimes
 namespace Ctrmml.MdDriver
 open Ctrmml Player PlayerCh Tables TickStream
 
@@ -236,6 +237,137 @@ theorem single_fm_slur_keys (id : Nat) (hid : id < 6) (hsingle : SingleTrack son
       cases hcs : c.slur with
       | true => simp [slurIn, hcs]
       | false => exact hS.mpr ⟨hcs, fun hh => hns ((hD _).mpr hh)⟩
+
+theorem resetLoopCh_env (c : Ch) : (resetLoopCh c).envData = c.envData ∧ (resetLoopCh c).envPos = c.envPos ∧
+    (resetLoopCh c).envDelay = c.envDelay ∧ (resetLoopCh c).coarse = c.coarse ∧
+    (resetLoopCh c).var ev_VOL_FINE = c.var ev_VOL_FINE ∧ (resetLoopCh c).enabled = c.enabled := by
+  unfold resetLoopCh
+  simp only
+  split <;> exact ⟨rfl, rfl, rfl, rfl, rfl, rfl⟩
+
+/-- **The attenuation of the one PSG melody channel, update by update.** -/
+theorem single_psg (id : Nat) (hid6 : 6 ≤ id) (hid9 : id < 9) (hsingle : SingleTrack song id root)
+    (cEnd : Core) (B : Nat) (hend : EndOK song root cEnd) (hB : 2 * B + 2 ≤ settleFuel)
+    (hpl : PlainHooks song root) (m0 : LX)
+    (hrel0 : RelX song root cEnd B ⟨⟨.root, 0, []⟩, {}⟩ m0)
+    (k : Nat) (herr : ∀ j, j ≤ k + 1 → (updRun d song j (playSong d song).1).g.err = none) :
+    ∃ c', (updRun d song (k + 1) (playSong d song).1).chans = [c'] ∧
+      (DeliveredIn m0 (updRun d song k (playSong d song).1).ticks (updRun d song (k + 1) (playSong d song).1).ticks
+          (fun e => e.type = ev_NOTE) →
+        slurOf (updRun d song k (playSong d song).1) = false →
+        ¬ DeliveredIn m0 (updRun d song k (playSong d song).1).ticks (updRun d song (k + 1) (playSong d song).1).ticks
+          (fun e => e.type = ev_SLUR) →
+        (lxAfter (updRun d song (k + 1) (playSong d song).1).ticks m0).enabled = true →
+        ∀ d0, c'.envData[0]? = some d0 → d0 > 0x0f →
+          (atts (id - 6) (updWrs d song (playSong d song).1 k)).getLast? =
+            some (psgAtt c'.coarse (c'.var ev_VOL_FINE) d0 % 16) ∧ c'.envPos = 1 ∧ c'.envDelay = d0) ∧
+      ((lxAfter (updRun d song k (playSong d song).1).ticks m0).enabled = true →
+        (lxAfter (updRun d song (k + 1) (playSong d song).1).ticks m0).enabled = false →
+        (atts (id - 6) (updWrs d song (playSong d song).1 k)).getLast? = some 15) := by
+  obtain ⟨i, hidef⟩ : ∃ i, i = id - 6 := ⟨_, rfl⟩
+  have hi : i < 3 := by omega
+  rw [← hidef]
+  have hmk : (mkCh d id root).1.kind = .psg i ∧ (mkCh d id root).1.root = root ∧
+      (mkCh d id root).1.ps.err = none ∧ (mkCh d id root).1.keyOn = false ∧
+      (mkCh d id root).1.ps.core = ⟨.root, 0, []⟩ ∧ (mkCh d id root).1.ps.acc = {} ∧ drumOff (mkCh d id root).1.ps.ch := by
+    have hd : drumOff
+        ({ trackState := ((List.replicate ev_CHANNEL_CMD_COUNT (0 : Int)).set (chIdx ev_VOL_FINE) md_initial_vol).set
+            (chIdx ev_PAN) md_initial_pan, mask := [VOL_BIT] } : Chan) := by
+      unfold drumOff; decide
+    have h6 : ¬ id < 6 := by omega
+    have hmod : (id - 6) % 4 = i := by omega
+    unfold mkCh
+    rw [if_neg h6, if_pos hid9]
+    exact ⟨by simp [hmod], rfl, rfl, rfl, rfl, rfl, hd⟩
+  obtain ⟨P, hP⟩ : ∃ P : Ch → List (List Event) → Ch → List Wr → Prop, P = fun c ws c1 wrs =>
+      ((∃ e ∈ ws.flatten, e.type = ev_NOTE) → slurIn c ws.flatten = false → c1.enabled = true →
+        ∀ d0, c1.envData[0]? = some d0 → d0 > 0x0f →
+          (atts i wrs).getLast? = some (psgAtt c1.coarse (c1.var ev_VOL_FINE) d0 % 16) ∧ c1.envPos = 1 ∧ c1.envDelay = d0) ∧
+      (∀ e, ws.flatten.getLast? = some e → e.type = ev_END → c1.enabled = false → (atts i wrs).getLast? = some 15) := ⟨_, rfl⟩
+  have hCIr : ∀ c, (Base root c ∧ c.kind = .psg i ∧ c.keyOn = false) → (Base root (resetLoopCh c) ∧ (resetLoopCh c).kind = .psg i ∧ (resetLoopCh c).keyOn = false) := by
+    intro c hc
+    obtain ⟨r1, r2, r3, r4, r5, r6, r7, _⟩ := resetLoopCh_same c
+    exact ⟨⟨r2.trans hc.1.root, r4.trans hc.1.err, by rw [r5]; exact hc.1.drum⟩, r1.trans hc.2.1, r7.trans hc.2.2⟩
+  have hCIu : ∀ n g c s' ws, (Base root c ∧ c.kind = .psg i ∧ c.keyOn = false) → g.err = none →
+      ctRun song root n ⟨c.ps.core, c.ps.acc⟩ = some (s', ws) →
+      (chUpdate d song n g c).1.err.isSome = true ∨
+        ((chUpdate d song n g c).2.1.ps.core = s'.core ∧ (chUpdate d song n g c).2.1.ps.acc = s'.acc ∧
+          (Base root (chUpdate d song n g c).2.1 ∧ (chUpdate d song n g c).2.1.kind = .psg i ∧ (chUpdate d song n g c).2.1.keyOn = false) ∧
+          P c ws (chUpdate d song n g c).2.1 (chUpdate d song n g c).2.2) := by
+    intro n g c s' ws hc hg hrun
+    rcases chUpdate_psg d song root hpl i hi n g c hc.1 hc.2.1 hg hc.2.2 s' ws hrun with h | ⟨a1, a2, a3, a4, a5, a6⟩
+    · exact Or.inl h
+    · have hen : (chUpdate d song n g c).2.1.enabled = s'.acc.enabled := by
+        show (chUpdate d song n g c).2.1.ps.acc.enabled = _; rw [a2]
+      rcases chUpdate_keyOn_false d song n g c with h | hko
+      · exact Or.inl h
+      refine Or.inr ⟨a1, a2, ⟨a3, a4, hko⟩, ?_⟩
+      rw [hP]
+      exact ⟨fun h1 h2 h3 d0 h4 h5 => by
+          obtain ⟨q1, q2, q3, _, _⟩ := a5 h1 h2 (hen ▸ h3) d0 h4 h5
+          exact ⟨q1, q2, q3⟩,
+        fun e h1 h2 h3 => a6 e h1 h2 (hen ▸ h3)⟩
+  have hinit : Base root (mkCh d id root).1 ∧ (mkCh d id root).1.kind = .psg i ∧ (mkCh d id root).1.keyOn = false :=
+    ⟨⟨hmk.2.1, hmk.2.2.1, hmk.2.2.2.2.2.2⟩, hmk.1, hmk.2.2.2.1⟩
+  have hrel0' : RelX song root cEnd B ⟨(mkCh d id root).1.ps.core, (mkCh d id root).1.ps.acc⟩ m0 := by
+    rw [hmk.2.2.2.2.1, hmk.2.2.2.2.2.1]; exact hrel0
+  obtain ⟨c, hc, hci, hen1, hen0⟩ := single_update_ch d song root id hsingle cEnd B hend hB
+    (fun c => Base root c ∧ c.kind = .psg i ∧ c.keyOn = false) hCIr P hCIu hinit m0 hrel0' k herr
+  -- the channel after the update, related to the machine
+  obtain ⟨c', hc', _, hrel'⟩ := single_inv d song root id hsingle cEnd B hend hB
+    (fun c => Base root c ∧ c.kind = .psg i ∧ c.keyOn = false) hCIr
+    (fun n g c s' ws a b cc => by
+      rcases hCIu n g c s' ws a b cc with h | ⟨h1, h2, h3, _⟩
+      · exact Or.inl h
+      · exact Or.inr ⟨h1, h2, h3⟩) hinit m0 hrel0' (k + 1) herr
+  have hen' : c'.enabled = (lxAfter (updRun d song (k + 1) (playSong d song).1).ticks m0).enabled := hrel'.1
+  obtain ⟨s0, hs0⟩ : ∃ s0, s0 = (playSong d song).1 := ⟨_, rfl⟩
+  rw [← hs0] at hc hen1 hen0 herr hc' hen' ⊢
+  refine ⟨c', hc', ?_, ?_⟩
+  · intro hN hsl hns hen d0 h0 hd0
+    have hT := (updRun_ticks d song s0 k).1
+    rw [hT] at hN hns
+    have hN' := (deliveredIn_iff _ _ _ _).mp hN
+    have hns' : ¬ ∃ e ∈ (lxRun (updTicks d song s0 k) (lxAfter (updRun d song k s0).ticks m0)).flatten, e.type = ev_SLUR :=
+      fun hh => hns ((deliveredIn_iff _ _ _ _).mpr hh)
+    have hsl' : c.slur = false := by simpa [slurOf, hc] using hsl
+    cases hek : (lxAfter (updRun d song k s0).ticks m0).enabled with
+    | false =>
+      exfalso
+      obtain ⟨e, he, _⟩ := hN'
+      rw [lxRun_disabled _ _ hek] at he; cases he
+    | true =>
+      obtain ⟨c1, hp, hch⟩ := hen1 hek
+      rw [hP] at hp
+      have hc1 : c'.envData = c1.envData ∧ c'.envPos = c1.envPos ∧ c'.envDelay = c1.envDelay ∧ c'.coarse = c1.coarse ∧
+          c'.var ev_VOL_FINE = c1.var ev_VOL_FINE ∧ c'.enabled = c1.enabled := by
+        rcases hch with h | h
+        · rw [hc'] at h
+          simp only [List.cons.injEq, and_true] at h
+          rw [h]; exact ⟨rfl, rfl, rfl, rfl, rfl, rfl⟩
+        · rw [hc'] at h
+          simp only [List.cons.injEq, and_true] at h
+          rw [h]; exact resetLoopCh_env c1
+      obtain ⟨e1, e2, e3, e4, e5, e6⟩ := hc1
+      rw [e1] at h0
+      obtain ⟨q1, q2, q3⟩ := hp.1 hN' ((slurIn_false_iff c _).mpr ⟨hsl', hns'⟩) (by rw [← e6, hen']; exact hen) d0 h0 hd0
+      rw [e4, e5, e2, e3]
+      exact ⟨q1, q2, q3⟩
+  · intro hek hdis
+    obtain ⟨c1, hp, hch⟩ := hen1 hek
+    rw [hP] at hp
+    have he6 : c'.enabled = c1.enabled := by
+      rcases hch with h | h
+      · rw [hc'] at h
+        simp only [List.cons.injEq, and_true] at h
+        rw [h]
+      · rw [hc'] at h
+        simp only [List.cons.injEq, and_true] at h
+        rw [h]; exact (resetLoopCh_env c1).2.2.2.2.2
+    have hT := (updRun_ticks d song s0 k).1
+    rw [hT, lxAfter_add] at hdis
+    have hlast := lxRun_stop_last (updTicks d song s0 k) _ hek hdis
+    exact hp.2 endEvent hlast (by decide) (by rw [← he6, hen', hT, lxAfter_add]; exact hdis)
 
 end
 
